@@ -1,3 +1,224 @@
 import VpnCloud.Model.PeerCrypto
+import VpnCloud.Proofs.Lemmas.InitLemmas
+/-
+  C05 — key binding of the handshake: both ends derive the same symbolic master key, distinct
+  (cipher, key pair) give distinct keys, the two ends use opposite nonce halves, the initiator's core
+  is bound to its own pending ephemeral key and the one in the pong, and a handshake object reports
+  success at most once.
+
+  Statements changed with respect to the task (each with a counterexample to the original below):
+  * `masterKey_comm`: hypothesis `hab : beVal a = beVal b → a = b` added (holds for well-formed keys of
+    equal length, `masterKey_comm_wf`).  The symbolic key orders the pair by big-endian *value*; two
+    different strings of the same value (`[0]`, `[0, 0]`) are ordered by argument position.
+  * `initiator_success_binds`: hypotheses `hcr : st.crypto = none` (an initiator waiting for the pong has
+    no core yet; otherwise, with plain negotiated, the old core opens the payload) and
+    `hdummy : ∀ x n q, bodyOf x ≠ .sealed rnd.dummy n q` (nothing is ever sealed under the throw-away key
+    of slots 1..3 of a new core; otherwise a payload addressed to key id 1 opens under that key).
+  `masterKey_inj`, `halves_opposite`, `no_second_success`, `success_stage` are proved as given.
+-/
 namespace VpnCloud.Proofs.C05
+
+open VpnCloud VpnCloud.Init
+open VpnCloud.Proofs.InitLemmas
+
+/-! ## the symbolic master key -/
+
+/-- both ends derive the same key.  Hypothesis added: `a` and `b` are equal if their big-endian values are (true for well-formed
+    strings of equal length, see `masterKey_comm_wf`); without it the statement is false, see the counterexample below. -/
+theorem masterKey_comm (c : Cipher) (a b : Bytes) (hab : Bytes.beVal a = Bytes.beVal b → a = b) :
+    masterKey c a b = masterKey c b a :=
+  masterKey_comm_of c a b hab
+
+/-- the form used for real keys: byte strings of equal length (32 for X25519) -/
+theorem masterKey_comm_wf (c : Cipher) (a b : Bytes) (hw : Bytes.WF a ∧ Bytes.WF b) (hl : a.length = b.length) :
+    masterKey c a b = masterKey c b a :=
+  masterKey_comm c a b (beVal_inj a b hw.1 hw.2 hl)
+
+/-- counterexample to the original `masterKey_comm` (no hypothesis): `[0]` and `[0, 0]` have the same value -/
+example : ¬ (∀ (c : Cipher) (a b : Bytes), masterKey c a b = masterKey c b a) := by
+  intro h
+  exact absurd (h .aes128 [0] [0, 0]) (by decide)
+
+/-- non-vacuity -/
+example : masterKey .chacha [1, 2] [3, 4] = masterKey .chacha [3, 4] [1, 2] := masterKey_comm_wf _ _ _ (by decide) rfl
+
+/-- distinct (cipher, unordered pair of 32-byte ephemeral keys) give distinct key references (symbolic counterpart of I3) -/
+theorem masterKey_inj (c c' : Cipher) (a b a' b' : Bytes) (hw : Bytes.WF a ∧ Bytes.WF b ∧ Bytes.WF a' ∧ Bytes.WF b')
+    (hl : a.length = 32 ∧ b.length = 32 ∧ a'.length = 32 ∧ b'.length = 32)
+    (h : masterKey c a b = masterKey c' a' b') : c = c' ∧ ((a = a' ∧ b = b') ∨ (a = b' ∧ b = a')) :=
+  masterKey_inj_of c c' a b a' b' hw hl h
+
+/-- non-vacuity: the hypotheses are satisfiable, and different ciphers give different keys for the same pair -/
+example : masterKey .aes128 (List.replicate 32 1) (List.replicate 32 2) ≠ masterKey .aes256 (List.replicate 32 2) (List.replicate 32 1) := by
+  intro h
+  have := (masterKey_inj _ _ _ _ _ _ (by decide) (by decide) h).1
+  cases this
+
+/-- the two ends evaluate `own hash > peer hash` on the same two values: opposite halves unless the hashes are equal (then "connected to self") -/
+theorem halves_opposite (h1 h2 : Bytes) (hne : Bytes.beVal h1 ≠ Bytes.beVal h2) : bytesGt h1 h2 = !bytesGt h2 h1 :=
+  bytesGt_opposite h1 h2 hne
+
+example : bytesGt [1, 2] [1, 3] = false ∧ bytesGt [1, 3] [1, 2] = true := by decide
+
+/-! ## the initiator's key binding -/
+
+/-- **initiator key binding**: when the initiator completes on a pong, its core was created for exactly the key derived from its own
+    pending ephemeral key and the one in the pong, with the cipher the negotiation selects, and the payload it reports was sealed under
+    that key.
+
+    Two hypotheses added (counterexamples to the statement without them below):
+    * `hcr`: the object has no core yet.  (Reachable states in stage PONG satisfy this: `crypto` is only set by the ping and pong
+      handlers, which leave stage PONG.)  Without it and with plain negotiated, the left-over core is used to open the payload.
+    * `hdummy`: nothing is ever sealed under the throw-away key of slots 1..3 of the new core (the implementation draws these keys at
+      random and never uses or reveals them).  Without it a payload with key id 1..3 sealed under that key is accepted. -/
+theorem initiator_success_binds (env : CryptoEnv) (bodyOf : BodyOf) (ok : Bytes → Bool) (st st' : InitSt) (w : Bytes) (rnd : Rand)
+    (out p : Bytes) (log : SealLog) (own : Bytes)
+    (hstage : st.stage = Generated.STAGE_PONG) (hown : st.ecdh = some own)
+    (hcr : st.crypto = none)
+    (hdummy : ∀ x n q, bodyOf x ≠ .sealed rnd.dummy n q)
+    (h : handleInit env bodyOf ok st w rnd = .ok st' (out, .success p true, log)) :
+    ∃ hb eb ab pl k, InitMsg.readFrom env w st.trusted = .ok (.pong hb eb ab pl, k) ∧
+      st'.stage = Generated.WAITING_TO_CLOSE ∧ st'.ecdh = none ∧
+      (match selectAlgorithm st.algos ab with
+       | .ok (some c) => st'.selected = some c ∧
+           ∃ core n, st'.crypto = some core ∧ (core.slots[0]?.map (·.key)) = some (masterKey c own eb) ∧ core.half = bytesGt st.hash hb ∧
+             bodyOf (pl.drop 8) = .sealed (masterKey c own eb) n p
+       | .ok none => st'.selected = none ∧ p = pl
+       | .error _ => False) := by
+  obtain ⟨m, k, hr, hms, hm⟩ := handleInit_success env bodyOf ok st st' w rnd out p true log h
+  rw [hstage] at hms
+  cases m with
+  | ping => simp [InitMsg.stage, Generated.STAGE_PONG, Generated.STAGE_PING] at hms
+  | peng => simp [InitMsg.stage, Generated.STAGE_PONG, Generated.STAGE_PENG] at hms
+  | pong hb eb ab pl =>
+    obtain ⟨_, own', sel, st5, hown', hsel, hd, _, hst'⟩ := handleMsg_pong env bodyOf ok st st' hb eb ab pl rnd out p true log hm
+    rw [hown] at hown'
+    simp only [Option.some.injEq] at hown'
+    subst hown'
+    obtain ⟨l, hsm⟩ := sendMessage_peng_fst env st5 rnd
+    rw [hsm, encryptPayload_fst] at hst'
+    obtain ⟨cr, hfr⟩ := decryptPayload_frame _ _ _ _ _ hd
+    have hecdh : st5.ecdh = none := by rw [hfr]; exact pongSt_ecdh ..
+    have hselected : st5.selected = sel := by rw [hfr]; exact pongSt_selected ..
+    refine ⟨hb, eb, ab, pl, k, hr, by rw [hst'], by rw [hst']; exact hecdh, ?_⟩
+    rw [hsel]
+    cases sel with
+    | none =>
+      refine ⟨by rw [hst']; exact hselected, ?_⟩
+      have hnone : (pongSt st own eb hb none rnd).crypto = none := hcr
+      rw [decryptPayload_none _ _ _ hnone] at hd
+      simp only [Prod.mk.injEq, Option.some.injEq] at hd
+      exact hd.2.symm
+    | some c =>
+      refine ⟨by rw [hst']; exact hselected, ?_⟩
+      have hsome : (pongSt st own eb hb (some c) rnd).crypto =
+          some (Core.new (masterKey c own eb) (bytesGt st.hash hb) rnd.dummy (rnd.start :: rnd.starts123)) := rfl
+      obtain ⟨hdec, hs5⟩ := decryptPayload_some _ _ _ _ hsome _ _ hd
+      obtain ⟨n, hn | hn⟩ := new_decrypt_ok _ _ _ _ _ _ hdec
+      · have hok := CoreOK_encrypt _ _ _ st5.payload (CoreOK_decrypt _ _ _
+          { hdr := pl.take 8, body := bodyOf (pl.drop 8) } (CoreOK_new (masterKey c own eb) (bytesGt st.hash hb) rnd.dummy (rnd.start :: rnd.starts123)))
+        refine ⟨_, n, ?_, hok.1, hok.2, hn⟩
+        rw [hst', hs5]; rfl
+      · exact absurd hn (hdummy _ _ _)
+
+
+/-- the statement of `initiator_success_binds` as originally given (without `hcr` and `hdummy`) -/
+def OriginalBinds : Prop :=
+  ∀ (env : CryptoEnv) (bodyOf : BodyOf) (ok : Bytes → Bool) (st st' : InitSt) (w : Bytes) (rnd : Rand)
+    (out p : Bytes) (log : SealLog) (own : Bytes),
+    st.stage = Generated.STAGE_PONG → st.ecdh = some own →
+    handleInit env bodyOf ok st w rnd = .ok st' (out, .success p true, log) →
+    ∃ hb eb ab pl k, InitMsg.readFrom env w st.trusted = .ok (.pong hb eb ab pl, k) ∧
+      st'.stage = Generated.WAITING_TO_CLOSE ∧ st'.ecdh = none ∧
+      (match selectAlgorithm st.algos ab with
+       | .ok (some c) => st'.selected = some c ∧
+           ∃ core n, st'.crypto = some core ∧ (core.slots[0]?.map (·.key)) = some (masterKey c own eb) ∧ core.half = bytesGt st.hash hb ∧
+             bodyOf (pl.drop 8) = .sealed (masterKey c own eb) n p
+       | .ok none => st'.selected = none ∧ p = pl
+       | .error _ => False)
+
+/-- counterexample 1 (`hdummy` is needed; `hcr` holds here): the pong payload is addressed to key id 1 and sealed under the throw-away
+    key `rnd.dummy = 1`; the initiator accepts it although it was not sealed under the master key -/
+example : ¬ OriginalBinds := by
+  intro H
+  obtain ⟨st', out, log, h⟩ : ∃ st' out log,
+      handleInit Toy.env (Toy.body 1) (fun _ => true) Toy.st (Toy.pong Toy.algos 1) Toy.rnd = .ok st' (out, .success [42] true, log) :=
+    ⟨_, _, _, rfl⟩
+  obtain ⟨hb, eb, ab, pl, k, hr, _, _, hm⟩ := H _ _ _ _ _ _ _ _ _ _ [5] rfl rfl h
+  have e : InitMsg.readFrom Toy.env (Toy.pong Toy.algos 1) Toy.st.trusted =
+      .ok (.pong (List.replicate 20 2) [6] Toy.algos (Toy.pl 1), [9, 9, 9, 9]) := by decide
+  rw [e] at hr
+  simp only [Except.ok.injEq, Prod.mk.injEq, InitMsg.pong.injEq] at hr
+  obtain ⟨⟨rfl, rfl, rfl, rfl⟩, rfl⟩ := hr
+  have e2 : selectAlgorithm Toy.st.algos Toy.algos = .ok (some .aes128) := by decide
+  rw [e2] at hm
+  obtain ⟨_, core, n, _, _, _, hbody⟩ := hm
+  simp only [Toy.body, Body.sealed.injEq] at hbody
+  exact absurd hbody.1 (by decide)
+
+/-- counterexample 2 (`hcr` is needed; `hdummy` holds here): the object carries a left-over core with key 7, both ends allow plain:
+    the payload is opened with the left-over core, the reported payload `[42]` is not the transmitted one -/
+example : ¬ OriginalBinds := by
+  intro H
+  obtain ⟨st', out, log, h⟩ : ∃ st' out log,
+      handleInit Toy.env (Toy.body 7) (fun _ => true) { Toy.st with algos := Toy.algosPlain, crypto := some (Core.new 7 false 8 []) }
+        (Toy.pong Toy.algosPlain 0) Toy.rnd = .ok st' (out, .success [42] true, log) :=
+    ⟨_, _, _, rfl⟩
+  obtain ⟨hb, eb, ab, pl, k, hr, _, _, hm⟩ := H _ _ _ _ _ _ _ _ _ _ [5] rfl rfl h
+  have e : InitMsg.readFrom Toy.env (Toy.pong Toy.algosPlain 0) Toy.st.trusted =
+      .ok (.pong (List.replicate 20 2) [6] Toy.algosPlain (Toy.pl 0), [9, 9, 9, 9]) := by decide
+  rw [e] at hr
+  simp only [Except.ok.injEq, Prod.mk.injEq, InitMsg.pong.injEq] at hr
+  obtain ⟨⟨rfl, rfl, rfl, rfl⟩, rfl⟩ := hr
+  have e2 : selectAlgorithm Toy.algosPlain Toy.algosPlain = .ok none := by decide
+  rw [e2] at hm
+  exact absurd hm.2 (by decide)
+
+/-- non-vacuity (cipher negotiated): all hypotheses of `initiator_success_binds` hold and the handshake succeeds -/
+example : Toy.st.stage = Generated.STAGE_PONG ∧ Toy.st.ecdh = some [5] ∧ Toy.st.crypto = none ∧
+    (∀ x n q, Toy.body (masterKey .aes128 [5] [6]) x ≠ .sealed Toy.rnd.dummy n q) ∧
+    ∃ st' out log, handleInit Toy.env (Toy.body (masterKey .aes128 [5] [6])) (fun _ => true) Toy.st (Toy.pong Toy.algos 0) Toy.rnd =
+      .ok st' (out, .success [42] true, log) := by
+  refine ⟨rfl, rfl, rfl, ?_, _, _, _, rfl⟩
+  intro x n q hh
+  simp only [Toy.body, Body.sealed.injEq] at hh
+  exact absurd hh.1 (by decide)
+
+/-- non-vacuity (plain negotiated): the reported payload is the transmitted one -/
+example : ∃ st' out log, handleInit Toy.env (Toy.body 0) (fun _ => true) { Toy.st with algos := Toy.algosPlain }
+    (Toy.pong Toy.algosPlain 0) Toy.rnd = .ok st' (out, .success (Toy.pl 0) true, log) :=
+  ⟨_, _, _, rfl⟩
+
+/-! ## success at most once -/
+
+/-- a handshake object reports success at most once: after a success its stage is WAITING_TO_CLOSE or CLOSING, and from there no further
+    success is possible -/
+theorem no_second_success (env : CryptoEnv) (bodyOf : BodyOf) (ok : Bytes → Bool) (st : InitSt) (w : Bytes) (rnd : Rand)
+    (hs : st.stage = Generated.WAITING_TO_CLOSE ∨ st.stage = Generated.CLOSING) :
+    ∀ st' out p ini log, handleInit env bodyOf ok st w rnd ≠ .ok st' (out, .success p ini, log) := by
+  intro st' out p ini log h
+  obtain ⟨m, k, _, hms, _⟩ := handleInit_success env bodyOf ok st st' w rnd out p ini log h
+  cases m <;> rcases hs with hs | hs <;> rw [hs] at hms <;>
+    simp [InitMsg.stage, Generated.STAGE_PING, Generated.STAGE_PONG, Generated.STAGE_PENG, Generated.WAITING_TO_CLOSE,
+      Generated.CLOSING] at hms
+
+theorem success_stage (env : CryptoEnv) (bodyOf : BodyOf) (ok : Bytes → Bool) (st st' : InitSt) (w : Bytes) (rnd : Rand)
+    (out p : Bytes) (ini : Bool) (log : SealLog) (h : handleInit env bodyOf ok st w rnd = .ok st' (out, .success p ini, log)) :
+    st'.stage = Generated.WAITING_TO_CLOSE ∨ st'.stage = Generated.CLOSING := by
+  obtain ⟨m, k, _, _, hm⟩ := handleInit_success env bodyOf ok st st' w rnd out p ini log h
+  cases m with
+  | ping hb e a => exact absurd hm (handleMsg_ping _ _ _ _ _ _ _ _ _ _ _ _ _)
+  | pong hb eb ab pl =>
+    obtain ⟨_, _, _, _, _, _, _, _, hst'⟩ := handleMsg_pong _ _ _ _ _ _ _ _ _ _ _ _ _ _ hm
+    exact Or.inl (by rw [hst'])
+  | peng hb pl =>
+    obtain ⟨_, _, _, _, hst'⟩ := handleMsg_peng _ _ _ _ _ _ _ _ _ _ _ _ hm
+    exact Or.inr (by rw [hst'])
+
+/-- non-vacuity: the state after the success above is in stage WAITING_TO_CLOSE and the same pong again gives no success -/
+example : ∃ st' out log, handleInit Toy.env (Toy.body 0) (fun _ => true) { Toy.st with algos := Toy.algosPlain }
+    (Toy.pong Toy.algosPlain 0) Toy.rnd = .ok st' (out, .success (Toy.pl 0) true, log) ∧ st'.stage = Generated.WAITING_TO_CLOSE ∧
+    ∃ out', handleInit Toy.env (Toy.body 0) (fun _ => true) st' (Toy.pong Toy.algosPlain 0) Toy.rnd = .ok st' (out', .continue, []) :=
+  ⟨_, _, _, rfl, rfl, _, rfl⟩
+
 end VpnCloud.Proofs.C05
